@@ -231,6 +231,9 @@ func relayNumber(addr string) int {
 			return i
 		}
 	}
+	if addr == RelayAddr(UnusableRelay) {
+		return UnusableRelay
+	}
 	return -1
 }
 
